@@ -192,6 +192,30 @@ pub fn observe(inst: &Value, modes: &[String], ctx: &mut Ctx, seed: u64) -> Valu
         obs["tap"] = tap_check(&ga, &iq, &args, &raw);
     }
 
+    if has("sched") {
+        // binding A: schedules generated by TLC from spec/Interp.tla, replayed through the Scripted adapter
+        let cap = modeval("sched", 2);
+        let mut bad = vec![]; let mut ran = 0usize; let mut mism = 0usize;
+        if let Some(ss) = inst["scheds"].as_array() {
+            for sc in ss {
+                let text = sc.as_str().unwrap_or("");
+                let script = Script::new(text);
+                let ad = Scripted { inner: ga.clone(), cap, script: script.clone() };
+                #[allow(clippy::arc_with_non_send_sync)]
+                let r = run_rows(Arc::new(ad), &iq, &args, ROW_LIMIT);
+                ran += 1;
+                let off = *script.mismatches.borrow() + script.leftover();
+                if off > 0 { mism += 1; }
+                match r {
+                    Err(p) => bad.push(json!({"sched": text, "what": "panic", "err": p})),
+                    Ok(Err(e)) => bad.push(json!({"sched": text, "what": "argerr", "err": e})),
+                    Ok(Ok(rows)) => if rows != raw { bad.push(json!({"sched": text, "what": "rows", "rows": rows.iter().map(row_json).collect::<Vec<_>>()})); }
+                }
+            }
+        }
+        obs["sched"] = json!({"ran": ran, "bad": bad, "script_drift": mism});
+    }
+
     if has("trace") {
         // binding B: event traces of Tap(Batching(GA)) under the instance's `tpolicies` (default: the unbatched policy n1)
         let max_rows = modeval("trace", ROW_LIMIT);
